@@ -116,6 +116,15 @@ theorem vol_parallelepiped (ox ax bx cx oy ay «by» cy oz az bz cz : K) :
       = ax * («by» * cz - bz * cy) - bx * (ay * cz - az * cy) + cx * (ay * bz - az * «by») :=
   signedVol_parallelepiped ox ax bx cx oy ay «by» cy oz az bz cz
 
+/-- **The generated formula is the divergence-theorem volume, for every cell**: for arbitrary
+corner positions (24 free coordinates) `calculateCellVol` before `fabs` equals
+`1/12 · Σ_{6 faces} (det of the 4 origin-apex tetrahedra of the two triangulations of the face)`,
+i.e. the exact volume of the polyhedron when the faces are planar (sheared / faulted
+corner-point cells), and the mean of the two triangulated polyhedra otherwise.  Every entry of
+the `permutation` and `pqr_array` tables and every branch of `C` enters this identity. -/
+theorem vol_eq_face_formula (X Y Z : Nat → K) : signedVol X Y Z = faceVol X Y Z :=
+  signedVol_eq_faceVol X Y Z
+
 /-- **Additivity under k-subdivision, full strength**: for *arbitrary* corner positions (24 free
 coordinates, twisted cells included) the two cells obtained by cutting at the midpoints of the
 four vertical edges have signed volumes adding up to the signed volume of the cell. -/
@@ -260,6 +269,13 @@ example : signedVolume (splitLowerI twisted) + signedVolume (splitUpperI twisted
     signedVolume (splitLowerJ twisted) + signedVolume (splitUpperJ twisted) = signedVolume twisted ∧
     signedVolume (splitLowerI twisted) ≠ signedVolume (splitUpperI twisted) := by
   decide +kernel
+
+/-- The face formula evaluated on the twisted cell: non-zero, so `vol_eq_face_formula` is not an
+identity between zeros. -/
+example : faceVol twisted.X twisted.Y twisted.Z = signedVolume twisted ∧ faceVol twisted.X twisted.Y twisted.Z ≠ 0 := by
+  constructor
+  · exact (vol_eq_face_formula twisted.X twisted.Y twisted.Z).symm
+  · rw [← vol_eq_face_formula]; decide +kernel
 
 /-- **Witness (model mirrors the code as it is).**  When DX varies with `j` the hypothesis
 `DependsOnI` of `dxdydz_vs_cornerpoint` fails and the generated corner-point cell is *not* the
